@@ -1563,8 +1563,17 @@ def width_of(v):
     return 10 ** 9            # anything lazy or foreign left in a result
 
 
-def shape_predicate(N, out, val, pulls, size, delivery):
-    more = size is None or size > N
+def extra_width(shape, size, template):
+    """Width that the expression itself adds to the result: the wrapping list / dict literal, and the
+    (key, value) pairs of an items view when the elements are walked by the finaliser."""
+    w = 1 if template in ("[[%s]]", "dict(a => %s)") else 0
+    if shape == "dict-items" and size and template not in ("%s.count()", "%s.toList().len()"):
+        w = max(w, 2)
+    return w
+
+
+def shape_predicate(N, out, val, pulls, size, delivery, extra=0):
+    more = size is None or size > N or extra > N
     if pulls is not None and delivery != "data, converted" and pulls > N + 1:
         return "%d items were pulled from one walk of the source, allowed %d" % (pulls, N + 1)
     if out == "Diverges":
@@ -1595,7 +1604,7 @@ def o_shapes(run, deep):
                         run.count("shape:%s:%s" % (shape, out.split(":")[0]))
                         if out.startswith("Other:"):
                             continue                 # the expression does not apply to this shape (e.g. an unhashable dict value)
-                        pred = shape_predicate(N, out, val, pulls, size, delivery)
+                        pred = shape_predicate(N, out, val, pulls, size, delivery, extra_width(shape, size, template))
                         if pred:
                             run.fail("violation", "%s handed in as %s: %s" % (shape, delivery, generalise(pred)),
                                      {"kind": "shape", "shape": shape, "items": L, "endless": endless, "delivery": delivery,
@@ -1816,7 +1825,8 @@ def replay(run, data):
     if kind == "shape":
         out, val, pulls, size, text = run_shape(d["shape"], d["items"], d["endless"], d["delivery"], d["template"], d["N"],
                                                 d.get("options_route", "copy"))
-        return out.startswith("Other:") or shape_predicate(d["N"], out, val, pulls, size, d["delivery"]) is None
+        return out.startswith("Other:") or shape_predicate(d["N"], out, val, pulls, size, d["delivery"],
+                                                           extra_width(d["shape"], size, d["template"])) is None
     if kind == "combinator":
         out, pulls = run_host(d["type"], d["position"], d["input"], d["N"], d.get("options_route", "copy"))
         return host_predicate(d["input"], d["N"], out, pulls, d["position"]) is None
